@@ -1,25 +1,38 @@
 /-
-C18 (line table, lexer part) — `lines_table_partial`.  Full statement and what is proved:
+C18 (line table, lexer part) — `lines_table` (= `lines_table_full`, now a theorem) and `lines_table_partial`.
 
   full : for every source that lexes to EOF without error, `Lines.map StartIdx` = the physical line starts.
 
-Three scanners append to `Lines`: `parseLine` (between tokens), `parseString` and `parseComment` (inside a token).
-Proved here, for all texts of the class: a source that is ONE multi-line text literal written verbatim
-(`Spec.Literal.Verbatim`: any characters, any mixture of CR / LF / CRLF / LFCR, nested own quotes, other quote pairs;
-no back-tick, no NUL) lexes to EOF without error and its line table starts are exactly the physical line starts —
-i.e. the string scanner records one line per line break, starting right after it (`verbatim_run_lines`), and
-`parseBeginLex` / `parseEOF` add the first line and complete the last one.  Not proved: the same for `parseLine`
-(indentation) and `parseComment`, and the composition over arbitrary token sequences; those are covered by the
-correspondence runs (`lex` prints and compares the whole Lines table on every case that reaches EOF).
+PROVED for ALL sources (`lines_table`, `lines_table_any_fuel`; `lines_table_full_holds : lines_table_full`).
+No side condition is needed: CR LF / LF CR pairing is greedy left to right in every scanner exactly as in
+`Spec.Lines.lineStarts`, a lone CR or LF at the very end records the (empty) last line, and a NUL anywhere in the
+text never reaches EOF without error (`parseBeginLex` takes a leading NUL for an empty text and records no line,
+but `NextToken` then answers `InvalidChar`).
+
+The invariant, stated once (Proofs/LinesInv.lean): `LinesInv.At l k` — the start indices recorded in `l.lines`,
+followed by the physical line starts of the text from position `k` on, are the physical line starts of the whole
+text; `LinesInv.Good S k l` = the text is `S`, `parseBeginLex` has run, `At l (l.cursor + k)` (`k = 0` between
+tokens: cursor on the next character; `k = 1` inside the loops whose passes begin with `l.Next()`: cursor on the
+last consumed character).  Three scanners append to `Lines`, each proved to keep it:
+  * `parseLine` with indentation scanning and its `goto head`        — `parse_line_records_lines`;
+  * the comment scanners `注：…`, `注：“…”`, `注：「…」`, `//`, `/* */`     — `comment_scanner_records_lines`;
+  * `parseString` for arbitrary contents, back-tick escapes included — `string_scanner_records_lines`
+    (the back-tick machine never consumes a line break: `LinesInv.unescapeBackTick_frame1`);
+all other scanners consume no line break and leave the table alone (`LinesInv.Frame`), `parseEOF` is the only
+source of an EOF token and answers it only at the end of the text; `next_token_keeps_lines` composes them, and
+`lines_table` is the induction over the token sequence.
+`lines_table_partial` (the earlier one-literal theorem, explicit run of the string scanner) is kept.
 The model mirrors the repaired lexer: before `fix-c13-backtick-at-eof-or-linebreak` a line break right after a
 back-tick inside a string was consumed by the back-tick machine and missing from the table, and before
 `fix-c18-note-comment-first-char` the line break after an empty `注：` was swallowed together with the next line.
 -/
 import ZnVerif.Proofs.LexLines
+import ZnVerif.Proofs.LinesTokens
 
 namespace ZnVerif.Properties.C18Lines
 open ZnVerif ZnVerif.Model ZnVerif.Spec.Literal ZnVerif.Spec.Lines
 open ZnVerif.Generated.Tokens
+open ZnVerif.Model.LinesInv (Good Fresh At Frame starts)
 
 def lines_table_full : Prop :=
   ∀ (src : List Nat) (toks : List Token) (l : Lexer),
@@ -108,5 +121,112 @@ example : Verbatim .dblCurly [0x61, 0x0D, 0x0A, 0x62, 0x0A, 0x0D, 0x0D, 0x63, 0x
     physicalLineStarts (literalVerbatim .dblCurly [0x61, 0x0D, 0x0A, 0x62, 0x0A, 0x0D, 0x0D, 0x63, 0x0A]) =
       [0, 4, 7, 8, 10] := by
   refine ⟨⟨by decide, by decide, by decide⟩, by decide⟩
+
+/-! ### the full theorem -/
+
+/-- the line table of every source that lexes to EOF without error: the recorded start indices are exactly the
+physical line starts (whatever the token budget) -/
+theorem lines_table_any_fuel (fuel : Nat) (src : List Nat) (toks : List Token) (l : Lexer)
+    (h : lexAll fuel (mkLexer src) [] = (toks, some (.ok ()), l)) :
+    l.lines.toList.map (·.startIdx) = physicalLineStarts src := by
+  have := LinesInv.lexAll_good (S := src.toArray) fuel (mkLexer src) [] toks l rfl
+    (Or.inl (LinesInv.fresh_mkLexer src)) h
+  simpa [LinesInv.starts] using this.2
+
+/-- `lines_table_full`, proved: every source that lexes to EOF without error has a line table whose start indices
+are exactly the physical line starts -/
+theorem lines_table (src : List Nat) (toks : List Token) (l : Lexer)
+    (h : lexAll (4 * src.length + 17) (mkLexer src) [] = (toks, some (.ok ()), l)) :
+    l.lines.toList.map (·.startIdx) = physicalLineStarts src :=
+  lines_table_any_fuel _ src toks l h
+
+theorem lines_table_full_holds : lines_table_full := lines_table
+
+/-- non-vacuity source: a two-line quoted comment (CR LF inside), an indented statement with a text literal that
+spans lines (LF CR, then a back-tick escape), a `//` comment ended by a lone CR, a `/* */` comment over an empty
+line, and LF CR at the very end:
+`注：“a␍␊b”␊␉令x为“c␊␍`CR`d”；// e␍/* f␊␊*/␊␍` -/
+def demoSource : List Nat :=
+  [0x6CE8, 0xFF1A, 0x201C, 0x61, 0x0D, 0x0A, 0x62, 0x201D, 0x0A, 0x09, 0x4EE4, 0x78, 0x4E3A, 0x201C, 0x63, 0x0A, 0x0D,
+   0x60, 0x43, 0x52, 0x60, 0x64, 0x201D, 0xFF1B, 0x2F, 0x2F, 0x20, 0x65, 0x0D, 0x2F, 0x2A, 0x20, 0x66, 0x0A, 0x0A,
+   0x2A, 0x2F, 0x0A, 0x0D]
+
+-- non-vacuity of `lines_table`: the source above lexes to EOF (9 tokens) and has 8 physical lines
+set_option maxRecDepth 100000 in
+example : ∃ toks l, lexAll (4 * demoSource.length + 17) (mkLexer demoSource) [] = (toks, some (.ok ()), l) ∧
+    toks.length = 9 ∧ physicalLineStarts demoSource = [0, 6, 9, 17, 29, 34, 35, 39] := by
+  have h : (lexAll (4 * demoSource.length + 17) (mkLexer demoSource) []).2.1 = some (.ok ()) := by decide +kernel
+  have hn : (lexAll (4 * demoSource.length + 17) (mkLexer demoSource) []).1.length = 9 := by decide +kernel
+  refine ⟨(lexAll (4 * demoSource.length + 17) (mkLexer demoSource) []).1,
+    (lexAll (4 * demoSource.length + 17) (mkLexer demoSource) []).2.2, ?_, hn, by decide⟩
+  rw [← h]
+
+/-! ### the scanners that append to `Lines`, one theorem each (the invariant is `LinesInv.Good`) -/
+
+/-- `parseLine` (priority 2): called on a CR or LF between tokens, it consumes the whole run of line breaks —
+pairing CR LF / LF CR, scanning the indentation of each new line, `goto head` while another break follows — and
+records exactly the lines that start in that run -/
+theorem parse_line_records_lines (S : Array Nat) (ch : Nat) (withIndent : Bool) (l : Lexer) (g : Good S 0 l)
+    (hch : l.cur = ch) (hbr : isBreak ch = true) (u : Unit) (h : (parseLine ch withIndent l).1 = .ok u) :
+    Good S 0 (parseLine ch withIndent l).2 :=
+  LinesInv.parseLine_good ch withIndent l g hch hbr u h
+
+/-- the comment scanners (priority 1): at `注` or `/`, either a comment token — every line break inside a quoted
+or `/* */` comment recorded, a one-line comment stopped before its line break — or no comment and nothing but
+non-break characters passed (the caller then restores the cursor) -/
+theorem comment_scanner_records_lines (S : Array Nat) (l : Lexer) (g : Good S 0 l) (h0 : isBreak l.cur = false) :
+    (∀ tk l', parseComment l = (some tk, l') → Good S 0 l' ∧ tk.type = cTypeComment) ∧
+    (∀ l', parseComment l = (none, l') → Frame 0 l l') :=
+  LinesInv.parseComment_good l g h0
+
+/-- the string scanner, arbitrary contents (nested quotes, back-tick escapes, undocumented back-tick groups):
+every line break inside the literal is recorded -/
+theorem string_scanner_records_lines (S : Array Nat) (l : Lexer) (g : Good S 0 l) (h0 : isBreak l.cur = false)
+    (tk : Token) (l' : Lexer) (h : parseString l = (.ok tk, l')) : Good S 0 l' ∧ tk.type ≠ cTypeEOF :=
+  LinesInv.parseString_good l g h0 tk l' h
+
+/-- composition (priority 3): one `NextToken`, from the fresh state or between tokens, keeps the invariant; an EOF
+token is only answered with the cursor at the end of the text, where the invariant says the table is complete -/
+theorem next_token_keeps_lines (S : Array Nat) (l : Lexer) (hS : l.src = S) (hl : Fresh l ∨ Good S 0 l)
+    (tk : Token) (l' : Lexer) (h : nextToken l = (.ok tk, l')) :
+    Good S 0 l' ∧ (tk.type = cTypeEOF → l'.src.size ≤ l'.cursor) :=
+  LinesInv.nextToken_good l hS hl tk l' h
+
+/-- what the invariant says at the end of the text -/
+theorem invariant_at_end (S : Array Nat) (l : Lexer) (g : Good S 0 l) (h : l.src.size ≤ l.cursor) :
+    l.lines.toList.map (·.startIdx) = physicalLineStarts S.toList := by
+  have := g.inv.complete (by omega)
+  rw [g.src] at this
+  exact this
+
+/-- non-vacuity state: `demoSource` with `Lines = [0]`, cursor `k`, `parseBeginLex` done -/
+def demoState (lines : List Nat) (k : Nat) : Lexer :=
+  { src := demoSource.toArray, lines := (lines.map (fun i => { indents := 0, startIdx := i })).toArray,
+    cursor := k, beginLex := false }
+
+theorem demoState_good (lines : List Nat) (k : Nat)
+    (h : lines ++ LinesInv.tail demoSource.toArray k = physicalLineStarts demoSource) :
+    Good demoSource.toArray 0 (demoState lines k) := by
+  refine ⟨rfl, rfl, ?_⟩
+  show LinesInv.starts (demoState lines k) ++ _ = _
+  have : LinesInv.starts (demoState lines k) = lines := by
+    simp [LinesInv.starts, demoState, Function.comp_def]
+  rw [this]; exact h
+
+-- `comment_scanner_records_lines`: at position 0 (`注：“a␍␊b”`), one line recorded so far
+example : Good demoSource.toArray 0 (demoState [0] 0) ∧ isBreak (demoState [0] 0).cur = false :=
+  ⟨demoState_good _ _ (by decide), by decide⟩
+-- `parse_line_records_lines`: on the LF at position 8 after the first comment, two lines recorded so far
+example : Good demoSource.toArray 0 (demoState [0, 6] 8) ∧ isBreak (demoState [0, 6] 8).cur = true :=
+  ⟨demoState_good _ _ (by decide), by decide⟩
+-- `string_scanner_records_lines`: on the opening quote at position 13, three lines recorded so far
+example : Good demoSource.toArray 0 (demoState [0, 6, 9] 13) ∧ isBreak (demoState [0, 6, 9] 13).cur = false ∧
+    (demoState [0, 6, 9] 13).cur = cLeftDoubleQuoteII :=
+  ⟨demoState_good _ _ (by decide), by decide, by decide⟩
+-- `next_token_keeps_lines`: the fresh state of `demoSource`; `invariant_at_end`: the state after the last token
+example : Fresh (mkLexer demoSource) := LinesInv.fresh_mkLexer _
+example : Good demoSource.toArray 0 (demoState [0, 6, 9, 17, 29, 34, 35, 39] 39) ∧
+    (demoState [0, 6, 9, 17, 29, 34, 35, 39] 39).src.size ≤ 39 :=
+  ⟨demoState_good _ _ (by decide), by decide⟩
 
 end ZnVerif.Properties.C18Lines
